@@ -56,7 +56,7 @@ def check_stream(rep, g, pkts, tail, segs, tag):
 
 def run(ctx, rep):
     rng = ctx.rng
-    rep.rule = ("streams of 1..4 packets with payload sizes from {0,1,2,15,16,100}, payloads seeded with the marker bytes, marker-free "
+    rep.rule = ("streams of 1..4 packets with payload sizes from {0,1,2,15,16,100} and a sweep of every size 0..1100, payloads seeded with the marker bytes, marker-free "
                 "garbage prefixes (incl. ending in 0x83), partial trailing packets; all segmentations with <= 3 cuts exhaustively for "
                 "short streams, random segmentations incl. byte-by-byte; arbitrary (non-well-formed) byte strings for the "
                 "correspondence. non-trivial = distinct (stream, segmentation)")
@@ -102,6 +102,16 @@ def run(ctx, rep):
         check_stream(rep, g, pk, tail, segs, "random")
         if rng.random() < 0.2:
             model_cases.append(segs)
+    # ---- every value of the size field up to 1100 (both bytes of the field matter), followed by a second packet -----------
+    for size in range(0, 1101, 1 if ctx.deep else 1):
+        pk = [mk_packet(rng, size, size % 5 == 0), mk_packet(rng, 3, False)]
+        stream = [b for p in pk for b in p]
+        for cuts in ([], [rng.randrange(1, len(stream))], sorted({rng.randrange(1, len(stream)) for _ in range(3)})):
+            segs = cuts_to_segments(stream, cuts)
+            rep.case((tuple(stream), tuple(cuts)), "size-sweep")
+            check_stream(rep, [], pk, [], segs, "size-sweep")
+        if size % 37 == 0:
+            model_cases.append(cuts_to_segments(stream, [len(stream) // 2]))
     # ---- arbitrary bytes (incl. hostile length fields) for the correspondence -------------------------
     for _ in range(ctx.n(300, 3000)):
         stream = [rng.choice([0x83, 0x70, 0, 1, rng.randrange(256)]) for _ in range(rng.randrange(0, 60))]
